@@ -392,6 +392,7 @@ func checkC03(ck *Check) {
 	ck.boundedEffectLoop("C03.R2", a.TaintLoop, "A-TAINT")
 	// R3 targets
 	ck.actionTargets("C03.R3")
+	ck.nodeListImmutability("C03.R3")
 	ck.classification("C03.R3", map[int]string{0: "untainted"})
 	// R4 recovery branch
 	ck.recoveryBranch("C03.R4")
@@ -562,6 +563,11 @@ func (ck *Check) autoDiscovery(rule string) {
 					ck.fail(rule, key, ck.P.instrPos(st), funcID(fn), "min_nodes / max_nodes are (re)written only by auto-discovery in NewController and RunOnce", "", "the bound can be changed while running")
 					continue
 				}
+				// the value that decides auto-discovery (the configured options) must stay as configured:
+				// the store has to land in the per-group state / a local copy, never in Opts.NodeGroups
+				_, how := storeRoot(st.Addr)
+				ck.cond(!strings.Contains(how, "NodeGroups"), rule, key+"/target", ck.P.instrPos(st), funcID(fn), "discovered bounds are written to the group's own state (or a local copy), not into the configured options that decide whether discovery happens", how,
+					"the configured min_nodes/max_nodes are overwritten, so later scans no longer see (0,0) and stop following the cloud group's bounds")
 				v := ctx.Term(st.Val)
 				wantM := "MinSize"
 				if f == fMax {
